@@ -158,6 +158,46 @@ def run_case(desc):
                 tol = 1e-9 * max(1.0, absx / abs(t))
                 require(abs(sums.get(lab) - 1) <= tol, "shares", f"shares add up to {sums.get(lab)} at {lab}")
     require(build.snapshot(x) == snap, "input-modified", op)
+    again = desc.get("again")
+    if again and mode in ("coded", "float", "int") and xd["letters"]:
+        # the same array object is updated in place (as in a scenario loop) and reduced again in the same way:
+        # the second result must be computed from the values the array holds NOW
+        l0 = xd["letters"][0]
+        first = mx.items[l0][0]
+        if again == "values":
+            x.values[...] = x.values * 2 + 1
+            mx2 = mx.map(lambda v: v * 2 + 1)
+        elif again == "setitem":
+            x[...] = x * 2 + 1
+            mx2 = mx.map(lambda v: v * 2 + 1)
+        else:
+            x[{l0: first}] = 0
+            mx2 = MArr.from_fn(mx.letters, mx.items, lambda lab: 0 if lab[l0] == first else mx.get(lab))
+        if op == "sum_to":
+            res2, exp2 = x.sum_to(name_dims(U, letters, naming, x)), mx2.sum_to(letters)
+        elif op == "sum_over":
+            res2, exp2 = x.sum_over(name_dims(U, letters, naming, x)), mx2.sum_to([l for l in xd["letters"] if l not in letters])
+        elif op == "cumsum":
+            res2, exp2 = x.cumsum(letters[0]), mx2.cumsum(letters[0])
+        elif op == "cast_to":
+            res2, exp2 = x.cast_to(build.dimset(U, letters)), mx2.cast_to(letters, build.uitems(U))
+        else:
+            res2 = x.get_shares_over(tuple(letters))
+            tot2 = mx2.sum_to([l for l in xd["letters"] if l not in letters])
+            exp2 = None
+            got2 = MArr.from_flodym(res2)
+            for key in mx2.keys():
+                lab = dict(zip(mx2.letters, key))
+                t = tot2.get(lab)
+                if t == 0:
+                    continue
+                require(abs(got2.get(lab) * t - mx2.get(lab)) <= 1e-9 * max(abs(t), abs(mx2.get(lab))), "stale-result-after-inplace-update", f"shares after {again}: share*total != entry at {lab}")
+        if exp2 is not None:
+            scale2 = sum(abs(v) for v in mx2.data.values())
+            feq2 = model.make_eq_float(1e-9)
+            d = model.diff(exp2, MArr.from_flodym(res2), lambda a, b: feq2(a, b, scale2))
+            require(d is None, "stale-result-after-inplace-update", f"{op} repeated after in-place update ({again}): {d}; x{xd['letters']} dims {letters}")
+        classes.append(f"repeated-after-inplace-{again}")
     return {"nontrivial": bool(nontrivial), "classes": classes}
 
 
@@ -202,7 +242,8 @@ def cases(draw, mode, max_dims=4, max_len=3):
         # any unit: totals of 1e-13 are as legitimate as totals of 1e6
         k = draw(st.sampled_from([1e-15, 1e-13, 1e-9, 1e7]))
         x = dict(x, vals=[v * k for v in x["vals"]])
-    return {"universe": U, "x": x, "op": op, "dims": dims, "naming": naming, "bad": bad}
+    again = draw(st.sampled_from([None, None, "values", "setitem", "slice0"])) if mode != "sym" else None
+    return {"universe": U, "x": x, "op": op, "dims": dims, "naming": naming, "bad": bad, "again": again}
 
 
 class _F(Facet):
